@@ -39,6 +39,10 @@ type pipe struct {
 	eof, rst bool
 	wake     chan struct{}
 	consumed atomic.Int64 // bytes handed to the reader so far
+	// eofData: once the writer has half-closed, the read that hands out the LAST bytes returns io.EOF in
+	// the same call (legal for an io.Reader; QUIC streams do it when FIN travels with the data)
+	eofData  bool
+	eofFired atomic.Int64
 }
 
 func newPipe() *pipe { return &pipe{wake: make(chan struct{})} }
@@ -60,6 +64,24 @@ func (p *pipe) write(b []byte) error {
 		return nil
 	}
 	p.chunks = append(p.chunks, append([]byte(nil), b...))
+	p.signalLocked()
+	return nil
+}
+
+// writeAndClose appends the last bytes and half-closes in one step (no read can see one without the other).
+func (p *pipe) writeAndClose(b []byte) error {
+	p.mu.Lock()
+	defer p.mu.Unlock()
+	if p.rst {
+		return network.ErrReset
+	}
+	if p.eof {
+		return errors.New("write on closed stream")
+	}
+	if len(b) > 0 {
+		p.chunks = append(p.chunks, append([]byte(nil), b...))
+	}
+	p.eof = true
 	p.signalLocked()
 	return nil
 }
@@ -103,7 +125,12 @@ func (p *pipe) read(b []byte, deadline func() time.Time) (int, error) {
 				p.chunks[0] = p.chunks[0][n:]
 			}
 			p.consumed.Add(int64(n))
+			last := p.eofData && p.eof && len(p.chunks) == 0
 			p.mu.Unlock()
+			if last {
+				p.eofFired.Add(1)
+				return n, io.EOF
+			}
 			return n, nil
 		}
 		if p.eof {
